@@ -296,8 +296,9 @@ fn run_reader_on<S: Shape>(
 /// even on 2-line inputs).  So, as on the fast path, the harness ENUMERATES
 /// (concrete per iteration) the hit pattern (all 2^lines), invert,
 /// stop-on-nonmatch, passthru, (A,B) from a list and the fragmentation; line
-/// numbering stays symbolic.  The buffer mechanics under SYMBOLIC bytes and
-/// read sizes are the line_buffer.rs lemmas (thorough tier).
+/// numbering stays symbolic.  (Lemmas over the buffer mechanics with SYMBOLIC
+/// bytes and read sizes exist in line_buffer.rs but do not finish; they are not
+/// registered and nothing is claimed from them.)
 /// `det`: 0 = no binary detection (C02: == grep model == slice strategy; with
 /// `reuse` the same line buffer serves two consecutive searches);
 /// 1 = quit, 2 = convert (C14; T = the shape with every NUL converted).
